@@ -23,6 +23,8 @@ PROPS = {
     },
     "C02": {
         "profile": "core", "n_quick": 5, "n_thorough": 40, "nops": 16, "nlists": 3, "cfgs": SIX,
+        "corpus": ["rowkind_row", "rowkind_arow", "rowkind_grow", "rowkind_norow",
+                   "rowkind_ep_row", "rowkind_ep_arow", "rowkind_ep_grow", "rowkind_ep_norow"],
         "monitor": None,
         "relevant": M.relevant_by(M.proj({"X", "A", "N", "MN", "MX"}, keep_snap=True)),
         "rule": "same machines as C01; every taken transition's exit/action/entry cascade compared item by item",
@@ -47,7 +49,7 @@ PROPS = {
     },
     "C03": {
         "profile": "all", "n_quick": 4, "n_thorough": 30, "nops": 18, "nlists": 3, "cfgs": SIX,
-        "monitor": M.mon_C03, "check_ids": True,
+        "monitor": M.mon_C03, "check_ids": True, "extra_flags": ("-DH_INTROSPECT",),
         "relevant": M.relevant_by(M.proj({"N", "X", "MN", "MX"}, keep_snap=True)),
         "rule": "machines with completion, deferral, history and blocking states; after every operation the reported "
                 "active ids at every level are checked against the entry/exit ledger and the regions' state sets",
